@@ -1442,7 +1442,7 @@ func seqConfigs(h *harness, thorough bool) []*bCtx {
 		cfgs = []cfg{
 			{"t1", []bEntry{eBin, eMy, eSubDat, eInSub}, []string{"absent", "comments+macro+unrelated+blank-lines", "crlf", "patterns-present-with-extra-attributes", "no-final-newline", "crlf+patterns-present+no-final-newline", "mixed-line-endings", "empty-file"}, ""},
 			{"t2", []bEntry{ePsd, eInSubMy, eInSub}, []string{"absent", "comments+macro+unrelated+blank-lines", "crlf+patterns-present+no-final-newline", "no-final-newline"}, ""},
-			{"tf", []bEntry{eBin, eMov, eIgnore, eGitStar, eInSubTU, eSubIgnore}, []string{"absent", "comments+macro+unrelated+blank-lines", "big-10k", "crlf+patterns-present+no-final-newline", "no-final-newline", "mixed-line-endings"}, "idx"},
+			{"tf", []bEntry{eMov, eIgnore, eGitStar, eInSubTU, eSubIgnore}, []string{"absent", "comments+macro+unrelated+blank-lines", "big-10k", "crlf+patterns-present+no-final-newline", "no-final-newline", "mixed-line-endings"}, "idx"},
 		}
 	}
 	pool := initPool()
